@@ -59,17 +59,40 @@ theorem any_of_lookup {κ β : Type} [BEq κ] [LawfulBEq κ] {m : List (κ × β
       simp only [hb] at h
       simp [ih h]
 
-/-- The invariant of the run over the access-group pairs: `pend` = device commands not yet handled,
-`done` = target commands already handled. -/
-structure BInv (e : Env) (st : St) (d : Dev) (pend : List Nat) (done : List Bind) : Prop where
+/-- The invariant of the run over the access-group commands: `pend` = compared device commands not yet handled,
+`done` = target commands already handled; `managed` = the compared device commands. -/
+structure BInv (e : Env) (managed : List Nat) (st : St) (d : Dev) (pend : List Nat) (done : List Bind) : Prop where
   full : Full e st d
   intfs : d.intfs = e.a.intfs
   bkeys : (d.binds.map (·.1)).Nodup
-  keysEq : d.binds.map (·.1) = e.a.binds.map fun x => (x.dir, x.intf)
   pendOrig : ∀ i ∈ pend, d.binds.lookup (keyOf e i) = some (aclOfI e i)
+  pendNd : (pend.map (keyOf e)).Nodup
+  pendLt : ∀ i ∈ pend, i < e.a.binds.length
   frozenVals : ∀ p ∈ d.binds, FrozenAcl e st p.2 ∨ ∃ i ∈ pend, p.1 = keyOf e i
+  keysFrom : ∀ p ∈ d.binds, (∃ i ∈ pend, p.1 = keyOf e i) ∨ (∃ x ∈ done, p.1 = (x.dir, x.intf)) ∨
+    (∃ i, i < e.a.binds.length ∧ i ∉ managed ∧ p.1 = keyOf e i)
   doneOK : ∀ b ∈ done, b.acl ∈ st.aReady ∧ d.binds.lookup (b.dir, b.intf) = some (st.aNameOf b.acl)
+  doneDisj : ∀ b ∈ done, ∀ j ∈ pend, (b.dir, b.intf) ≠ keyOf e j
   routes : d.routes = (ofConfig e.a).routes
+
+theorem inj_of_nodup_map {α β : Type} (f : α → β) : ∀ (l : List α), (l.map f).Nodup → ∀ x ∈ l, ∀ y ∈ l, f x = f y → x = y := by
+  intro l
+  induction l with
+  | nil => intro _ x hx; simp at hx
+  | cons a l ih =>
+    intro h x hx y hy e1
+    simp only [List.map_cons, List.nodup_cons] at h
+    rcases List.mem_cons.mp hx with rfl | hx' <;> rcases List.mem_cons.mp hy with rfl | hy'
+    · rfl
+    · exact absurd (List.mem_map.mpr ⟨y, hy', e1.symm⟩) h.1
+    · exact absurd (List.mem_map.mpr ⟨x, hx', e1⟩) h.1
+    · exact ih h.2 x hx' y hy' e1
+
+theorem mem_filter_ne {i j : Nat} {l : List Nat} : j ∈ l.filter (· != i) ↔ j ∈ l ∧ j ≠ i := by
+  simp [List.mem_filter]
+
+theorem nodup_map_filter {α β : Type} (f : α → β) (p : α → Bool) {l : List α} (h : (l.map f).Nodup) :
+    ((l.filter p).map f).Nodup := List.Nodup.sublist (List.filter_sublist.map f) h
 
 /-- `Full` does not look at bindings, routes and interfaces of the device. -/
 theorem Full.of_dev {e : Env} {st st' : St} {d d' : Dev} (h : Full e st d) (hg : d'.groups = d.groups)
@@ -104,18 +127,23 @@ theorem Full.of_dev {e : Env} {st st' : St} {d d' : Dev} (h : Full e st d) (hg :
     exact (h.frozenLines X (by rw [← hha]; exact hX) (hfa' X hf)).mono hgN
 
 /-- `makeEqual` for one pair of access-group commands. -/
-theorem makeEqualBind_full (e : Env) (hw : WF e) (hA : RefsClosedA e) (hB : RefsClosedB e) (st : St) (d : Dev)
+theorem makeEqualBind_full (e : Env) (managed : List Nat) (hw : WF e) (hA : RefsClosedA e) (hB : RefsClosedB e) (st : St) (d : Dev)
     (i : Nat) (pend : List Nat) (done : List Bind) (b : Bind)
-    (hI : BInv e st d (i :: pend) done) (hc : pairCheck e st i b = true)
-    (hpk : ∀ j ∈ pend, keyOf e j ≠ keyOf e i)
-    (hdk : ∀ b' ∈ done, (b'.dir, b'.intf) ≠ (b.dir, b.intf)) :
-    ∃ d', Step e st d (makeEqualBind e st i b) d' ∧ BInv e (makeEqualBind e st i b) d' pend (done ++ [b]) ∧
+    (hI : BInv e managed st d pend done) (hi : i ∈ pend) (hc : pairCheck e st i b = true) :
+    ∃ d', Step e st d (makeEqualBind e st i b) d' ∧
+      BInv e managed (makeEqualBind e st i b) d' (pend.filter (· != i)) (done ++ [b]) ∧
       (makeEqualBind e st i b).bToDel = st.bToDel ∧
       (∀ j, j ∈ (makeEqualBind e st i b).bNeeded ↔ j = i ∨ j ∈ st.bNeeded) := by
+  have hpk : ∀ j ∈ pend.filter (· != i), keyOf e j ≠ keyOf e i := by
+    intro j hj e1
+    obtain ⟨h1, h2⟩ := mem_filter_ne.mp hj
+    exact h2 (inj_of_nodup_map (keyOf e) pend hI.pendNd j h1 i hi e1)
   unfold pairCheck at hc
   simp only [Bool.and_eq_true, beq_iff_eq, List.contains_eq_mem, decide_eq_true_eq] at hc
   obtain ⟨⟨⟨⟨⟨c1, c2⟩, c3⟩, c4⟩, c5⟩, c6⟩ := hc
   have hkey : keyOf e i = (b.dir, b.intf) := by unfold keyOf; rw [c1, c2]
+  have hdk : ∀ b' ∈ done, (b'.dir, b'.intf) ≠ (b.dir, b.intf) := fun b' hb' => by
+    rw [← hkey]; exact hI.doneDisj b' hb' i hi
   generalize hst1 : ({ st with bNeeded := makeEqualBind.addSet' i st.bNeeded } : St) = st1 at c6
   have hF1 : Full e st1 d := by rw [← hst1]; exact hI.full.of_marks rfl rfl rfl rfl rfl rfl rfl
   obtain ⟨d2, s2, f2, r2, n2, nd2, b2, ro2, bn2, bt2⟩ := diffAcl_full e hw hA hB st1 d hF1 (e.a.binds.getD i default).acl b.acl c3 c4 c6
@@ -141,7 +169,7 @@ theorem makeEqualBind_full (e : Env) (hw : WF e) (hA : RefsClosedA e) (hB : Refs
   obtain ⟨st2, refName⟩ := q
   simp only at s2 f2 r2 n2 nd2 bn2 bt2 ⊢
   have nd2' : refName = aclOfI e i → aclOfI e i ∈ st2.aNeeded := nd2
-  have horig : d2.binds.lookup (keyOf e i) = some (aclOfI e i) := by rw [b2]; exact hI.pendOrig i List.mem_cons_self
+  have horig : d2.binds.lookup (keyOf e i) = some (aclOfI e i) := by rw [b2]; exact hI.pendOrig i hi
   by_cases hre : (refName != (e.a.binds.getD i default).acl) = true
   · -- the binding is re-pointed
     rw [if_pos hre]
@@ -165,13 +193,13 @@ theorem makeEqualBind_full (e : Env) (hw : WF e) (hA : RefsClosedA e) (hB : Refs
     have hb3 : d3.binds = setAssoc d2.binds (b.dir, b.intf) (st2.aNameOf b.acl) := by rw [← hd3]
     have hname3 : ∀ x, st3.aNameOf x = st2.aNameOf x := fun x => by rw [← hst3]; rfl
     have hany : d2.binds.any (·.1 == (b.dir, b.intf)) = true := by rw [← hkey]; exact any_of_lookup horig
-    refine ⟨d3, (s1.trans s2).trans s3, ⟨hF3, ?_, ?_, ?_, ?_, ?_, ?_, ?_⟩, ?_, ?_⟩
+    refine ⟨d3, (s1.trans s2).trans s3, ⟨hF3, ?_, ?_, ?_, nodup_map_filter _ _ hI.pendNd,
+      fun j hj => hI.pendLt j (mem_filter_ne.mp hj).1, ?_, ?_, ?_, ?_, ?_⟩, ?_, ?_⟩
     · rw [← hd3, s2.intfs]; exact hI.intfs
     · rw [hb3, keys_setAssoc_existing _ _ _ hany, b2]; exact hI.bkeys
-    · rw [hb3, keys_setAssoc_existing _ _ _ hany, b2]; exact hI.keysEq
     · intro j hj
       rw [hb3, lookup_setAssoc_ne _ _ _ _ (by rw [← hkey]; exact hpk j hj), b2]
-      exact hI.pendOrig j (List.mem_cons_of_mem _ hj)
+      exact hI.pendOrig j (mem_filter_ne.mp hj).1
     · intro p hp
       rw [hb3] at hp
       rcases mem_setAssoc hp with h1 | ⟨h1, h2⟩
@@ -183,9 +211,20 @@ theorem makeEqualBind_full (e : Env) (hw : WF e) (hA : RefsClosedA e) (hB : Refs
         · left
           exact ((h3.mono s1.aGrow).mono s2.aGrow).mono s3.aGrow
         · right
-          rcases List.mem_cons.mp hj with e1 | e1
+          by_cases e1 : j = i
           · exfalso; apply h2; rw [h3, e1, hkey]
-          · exact ⟨j, e1, h3⟩
+          · exact ⟨j, mem_filter_ne.mpr ⟨hj, e1⟩, h3⟩
+    · intro p hp
+      rw [hb3] at hp
+      rcases mem_setAssoc hp with h1 | ⟨h1, h2⟩
+      · right; left; exact ⟨b, by simp, by rw [h1]⟩
+      · rw [b2] at h1
+        rcases hI.keysFrom p h1 with ⟨j, hj, h3⟩ | ⟨x, hx, h3⟩ | h3
+        · by_cases e1 : j = i
+          · exfalso; apply h2; rw [h3, e1, hkey]
+          · exact Or.inl ⟨j, mem_filter_ne.mpr ⟨hj, e1⟩, h3⟩
+        · exact Or.inr (Or.inl ⟨x, List.mem_append_left _ hx, h3⟩)
+        · exact Or.inr (Or.inr h3)
     · intro b' hb'
       rcases List.mem_append.mp hb' with h1 | h1
       · obtain ⟨q1, q2⟩ := hI.doneOK b' h1
@@ -196,6 +235,11 @@ theorem makeEqualBind_full (e : Env) (hw : WF e) (hA : RefsClosedA e) (hB : Refs
         rw [hbb]
         refine ⟨by rw [← hst3]; exact r2, ?_⟩
         rw [hb3, lookup_setAssoc_self, hname3]
+    · intro b' hb' j hj
+      rcases List.mem_append.mp hb' with h1 | h1
+      · exact hI.doneDisj b' h1 j (mem_filter_ne.mp hj).1
+      · have hbb : b' = b := by simpa using h1
+        rw [hbb, ← hkey]; exact fun h => hpk j hj h.symm
     · rw [← hd3, ro2]; exact hI.routes
     · rw [← hst3]; exact bt2.trans hbt1
     · intro j; rw [← hst3]
@@ -208,21 +252,29 @@ theorem makeEqualBind_full (e : Env) (hw : WF e) (hA : RefsClosedA e) (hB : Refs
       simpa [aclOfI] using this
     have hneeded := nd2' hrn
     refine ⟨d2, s1.trans s2, ⟨f2, by rw [s2.intfs]; exact hI.intfs, by rw [b2]; exact hI.bkeys,
-      by rw [b2]; exact hI.keysEq, ?_, ?_, ?_,
+      ?_, nodup_map_filter _ _ hI.pendNd, fun j hj => hI.pendLt j (mem_filter_ne.mp hj).1, ?_, ?_, ?_, ?_,
       by rw [ro2]; exact hI.routes⟩, bt2.trans hbt1, fun j => by rw [bn2]; exact hbn1 j⟩
-    · intro j hj; rw [b2]; exact hI.pendOrig j (List.mem_cons_of_mem _ hj)
+    · intro j hj; rw [b2]; exact hI.pendOrig j (mem_filter_ne.mp hj).1
     · intro p hp
       rw [b2] at hp
       rcases hI.frozenVals p hp with h3 | ⟨j, hj, h3⟩
       · left; exact (h3.mono s1.aGrow).mono s2.aGrow
-      · rcases List.mem_cons.mp hj with e1 | e1
+      · by_cases e1 : j = i
         · left
           -- the entry of the handled command: its value is the device ACL, which is needed now
           have hl := lookup_of_mem_nodup' d.binds p.1 p.2 hI.bkeys hp
-          rw [h3, e1, hI.pendOrig i List.mem_cons_self] at hl
+          rw [h3, e1, hI.pendOrig i hi] at hl
           have : p.2 = aclOfI e i := by simpa using hl.symm
           rw [this]; exact Or.inl hneeded
-        · right; exact ⟨j, e1, h3⟩
+        · right; exact ⟨j, mem_filter_ne.mpr ⟨hj, e1⟩, h3⟩
+    · intro p hp
+      rw [b2] at hp
+      rcases hI.keysFrom p hp with ⟨j, hj, h3⟩ | ⟨x, hx, h3⟩ | h3
+      · by_cases e1 : j = i
+        · exact Or.inr (Or.inl ⟨b, by simp, by rw [h3, e1, hkey]⟩)
+        · exact Or.inl ⟨j, mem_filter_ne.mpr ⟨hj, e1⟩, h3⟩
+      · exact Or.inr (Or.inl ⟨x, List.mem_append_left _ hx, h3⟩)
+      · exact Or.inr (Or.inr h3)
     · intro b' hb'
       rcases List.mem_append.mp hb' with h1 | h1
       · obtain ⟨q1, q2⟩ := hI.doneOK b' h1
@@ -232,54 +284,360 @@ theorem makeEqualBind_full (e : Env) (hw : WF e) (hA : RefsClosedA e) (hB : Refs
         rw [hbb]
         refine ⟨r2, ?_⟩
         rw [← hkey, horig, ← n2, hrn]
+    · intro b' hb' j hj
+      rcases List.mem_append.mp hb' with h1 | h1
+      · exact hI.doneDisj b' h1 j (mem_filter_ne.mp hj).1
+      · have hbb : b' = b := by simpa using h1
+        rw [hbb, ← hkey]; exact fun h => hpk j hj h.symm
 
-/-- The run over all pairs. -/
-theorem pairsFold_full (e : Env) (hw : WF e) (hA : RefsClosedA e) (hB : RefsClosedB e) :
-    ∀ (ps : List (Nat × Bind)) (st : St) (d : Dev) (pend : List Nat) (done : List Bind),
-    BInv e st d (ps.map (·.1) ++ pend) done → runCheck e st ps = true →
-    ((ps.map (·.1) ++ pend).map (keyOf e)).Nodup →
-    ((done ++ ps.map (·.2)).map fun b => (b.dir, b.intf)).Nodup →
-    ∃ d', Step e st d (ps.foldl (fun st p => makeEqualBind e st p.1 p.2) st) d' ∧
-      BInv e (ps.foldl (fun st p => makeEqualBind e st p.1 p.2) st) d' pend (done ++ ps.map (·.2)) ∧
-      (ps.foldl (fun st p => makeEqualBind e st p.1 p.2) st).bToDel = st.bToDel ∧
-      (∀ j, j ∈ (ps.foldl (fun st p => makeEqualBind e st p.1 p.2) st).bNeeded ↔ j ∈ ps.map (·.1) ∨ j ∈ st.bNeeded) := by
-  intro ps
-  induction ps with
+/-! ## Removed and added access-group commands -/
+
+/-- Only marks outside of the invariant differ. -/
+structure Core (st st' : St) : Prop where
+  out : st'.out = st.out
+  mode : st'.mode = st.mode
+  gNeeded : st'.gNeeded = st.gNeeded
+  gReady : st'.gReady = st.gReady
+  gName : st'.gName = st.gName
+  aNeeded : st'.aNeeded = st.aNeeded
+  aReady : st'.aReady = st.aReady
+  aName : st'.aName = st.aName
+  bNeeded : st'.bNeeded = st.bNeeded
+
+theorem Core.refl (st : St) : Core st st := ⟨rfl, rfl, rfl, rfl, rfl, rfl, rfl, rfl, rfl⟩
+
+theorem Core.trans {s1 s2 s3 : St} (h1 : Core s1 s2) (h2 : Core s2 s3) : Core s1 s3 :=
+  ⟨h2.out.trans h1.out, h2.mode.trans h1.mode, h2.gNeeded.trans h1.gNeeded, h2.gReady.trans h1.gReady,
+   h2.gName.trans h1.gName, h2.aNeeded.trans h1.aNeeded, h2.aReady.trans h1.aReady, h2.aName.trans h1.aName,
+   h2.bNeeded.trans h1.bNeeded⟩
+
+theorem markDeletedAcl_core (e : Env) (st : St) (aN : Name) : Core st (markDeletedAcl e st aN) := by
+  unfold markDeletedAcl
+  split
+  · exact Core.refl st
+  · exact ⟨rfl, rfl, rfl, rfl, rfl, rfl, rfl, rfl, rfl⟩
+
+theorem markDeletedBinds_core (e : Env) (st : St) (idx : List Nat) : Core st (markDeletedBinds e st idx) := by
+  unfold markDeletedBinds
+  have key : ∀ (l : List Nat) (s : St), Core st s → Core st (l.foldl (fun st i =>
+      if st.bToDel.contains i then st else
+      markDeletedAcl e { st with bToDel := i :: st.bToDel } (e.a.binds.getD i default).acl) s) := by
+    intro l
+    induction l with
+    | nil => intro s hs; exact hs
+    | cons i is ih =>
+      intro s hs
+      rw [List.foldl_cons]
+      apply ih
+      split
+      · exact hs
+      · exact hs.trans ((⟨rfl, rfl, rfl, rfl, rfl, rfl, rfl, rfl, rfl⟩ : Core s { s with bToDel := i :: s.bToDel }).trans
+          (markDeletedAcl_core e _ _))
+  exact key idx st (Core.refl st)
+
+theorem BInv.of_core {e : Env} {managed : List Nat} {st st' : St} {d : Dev} {pend : List Nat} {done : List Bind}
+    (h : BInv e managed st d pend done) (c : Core st st') : BInv e managed st' d pend done := by
+  have hfa : ∀ x, FrozenAcl e st x → FrozenAcl e st' x := fun x hx => hx.mono (fun y hy => by rw [c.aNeeded]; exact hy)
+  refine ⟨h.full.of_marks c.mode c.gNeeded c.gReady c.gName c.aNeeded c.aReady c.aName, h.intfs, h.bkeys, h.pendOrig,
+    h.pendNd, h.pendLt, ?_, h.keysFrom, ?_, h.doneDisj, h.routes⟩
+  · intro p hp
+    rcases h.frozenVals p hp with h1 | h1
+    · exact Or.inl (hfa _ h1)
+    · exact Or.inr h1
+  · intro b hb
+    obtain ⟨q1, q2⟩ := h.doneOK b hb
+    exact ⟨by rw [c.aReady]; exact q1, by unfold St.aNameOf; rw [c.aName]; exact q2⟩
+
+theorem filter_filter_not_contains (pend : List Nat) (i : Nat) (rest : List Nat) :
+    (pend.filter (· != i)).filter (fun j => !rest.contains j) = pend.filter (fun j => !(i :: rest).contains j) := by
+  rw [List.filter_filter]
+  apply List.filter_congr
+  intro j _
+  simp only [List.contains_cons, Bool.not_or, bne, Bool.and_comm]
+
+theorem keys_delAssoc_sublist {κ β : Type} [BEq κ] (m : List (κ × β)) (k : κ) :
+    ((delAssoc m k).map (·.1)).Sublist (m.map (·.1)) := by
+  unfold delAssoc
+  exact List.filter_sublist.map _
+
+theorem mem_delAssoc {κ β : Type} [BEq κ] [LawfulBEq κ] {m : List (κ × β)} {k : κ} {p : κ × β}
+    (h : p ∈ delAssoc m k) : p ∈ m ∧ p.1 ≠ k := by
+  unfold delAssoc at h
+  obtain ⟨h1, h2⟩ := List.mem_filter.mp h
+  exact ⟨h1, by simpa using h2⟩
+
+theorem keyOf_mem_keys (e : Env) (i : Nat) (hi : i < e.a.binds.length) :
+    keyOf e i ∈ e.a.binds.map fun x => (x.dir, x.intf) := by
+  unfold keyOf
+  rw [List.getD_eq_getElem?_getD, List.getElem?_eq_getElem hi]
+  exact List.mem_map.mpr ⟨e.a.binds[i], List.getElem_mem hi, rfl⟩
+
+/-- The first loop of `delBinds`: `no access-group …` for every command of the slice. -/
+theorem delFold_full (e : Env) (managed : List Nat) : ∀ (idx : List Nat) (st : St) (d : Dev) (pend : List Nat) (done : List Bind),
+    BInv e managed st d pend done → idx.Nodup → (∀ i ∈ idx, i ∈ pend ∧ i ∉ st.bNeeded) →
+    ∃ d', Step e st d (idx.foldl (fun st i =>
+        if st.bNeeded.contains i then st else
+        { (st.emit (.noBind (e.a.binds.getD i default))) with mode := "", bNeeded := i :: st.bNeeded }.hit "bind:del") st) d' ∧
+      BInv e managed (idx.foldl (fun st i =>
+        if st.bNeeded.contains i then st else
+        { (st.emit (.noBind (e.a.binds.getD i default))) with mode := "", bNeeded := i :: st.bNeeded }.hit "bind:del") st) d'
+        (pend.filter fun j => !idx.contains j) done ∧
+      (∀ j, j ∈ (idx.foldl (fun st i =>
+        if st.bNeeded.contains i then st else
+        { (st.emit (.noBind (e.a.binds.getD i default))) with mode := "", bNeeded := i :: st.bNeeded }.hit "bind:del") st).bNeeded ↔
+          j ∈ idx ∨ j ∈ st.bNeeded) := by
+  intro idx
+  induction idx with
   | nil =>
-    intro st d pend done hI _ _ _
-    exact ⟨d, Step.refl e st d, by simpa using hI, rfl, fun j => by simp⟩
-  | cons p ps ih =>
-    intro st d pend done hI hc hk hdk
-    obtain ⟨i, b⟩ := p
-    simp only [runCheck, Bool.and_eq_true] at hc
-    simp only [List.map_cons, List.cons_append, List.nodup_cons] at hk
-    obtain ⟨d1, s1, i1, bt1, bn1⟩ := makeEqualBind_full e hw hA hB st d i (ps.map (·.1) ++ pend) done b hI hc.1
-      (by
-        intro j hj e1
-        apply hk.1
-        rw [← e1]
-        exact List.mem_map.mpr ⟨j, hj, rfl⟩)
-      (by
-        intro b' hb' e1
-        rw [List.map_append, List.nodup_append] at hdk
-        exact hdk.2.2 _ (List.mem_map.mpr ⟨b', hb', rfl⟩) _ (List.mem_map.mpr ⟨b, List.mem_cons_self, rfl⟩) e1)
-    obtain ⟨d2, s2, i2, bt2, bn2⟩ := ih (makeEqualBind e st i b) d1 pend (done ++ [b]) i1 hc.2 hk.2
-      (by simpa [List.append_assoc] using hdk)
-    refine ⟨d2, by rw [List.foldl_cons]; exact s1.trans s2, ?_, by rw [List.foldl_cons]; exact bt2.trans bt1, ?_⟩
-    · rw [List.foldl_cons]
-      simpa [List.append_assoc] using i2
-    · intro j
-      rw [List.foldl_cons, bn2, bn1]
-      simp only [List.map_cons, List.mem_cons]
-      constructor
-      · rintro (h1 | h1 | h1)
-        · exact Or.inl (Or.inr h1)
-        · exact Or.inl (Or.inl h1)
-        · exact Or.inr h1
-      · rintro ((h1 | h1) | h1)
-        · exact Or.inr (Or.inl h1)
-        · exact Or.inl h1
-        · exact Or.inr (Or.inr h1)
+    intro st d pend done hI _ _
+    refine ⟨d, Step.refl e st d, ?_, fun j => by simp⟩
+    have : (pend.filter fun j => !([] : List Nat).contains j) = pend := List.filter_eq_self.mpr (fun _ _ => by simp)
+    rw [List.foldl_nil, this]; exact hI
+  | cons i is ih =>
+    intro st d pend done hI hnd hc
+    obtain ⟨hip, hin⟩ := hc i List.mem_cons_self
+    have hin' : st.bNeeded.contains i = false := by simpa using hin
+    rw [List.foldl_cons]
+    simp only [hin', Bool.false_eq_true, if_false]
+    generalize hst1 : ({ (st.emit (.noBind (e.a.binds.getD i default))) with mode := "", bNeeded := i :: st.bNeeded }.hit "bind:del" : St) = st1
+    have horig := hI.pendOrig i hip
+    have hex : exec1 d (.noBind (e.a.binds.getD i default)) = .ok { d with binds := delAssoc d.binds (keyOf e i), mode := none } := by
+      have : d.binds.lookup ((e.a.binds.getD i default).dir, (e.a.binds.getD i default).intf) = some (e.a.binds.getD i default).acl := horig
+      simp only [exec1, this, bne_self_eq_false, Bool.false_eq_true, if_false]
+      rfl
+    generalize hd1 : ({ d with binds := delAssoc d.binds (keyOf e i), mode := none } : Dev) = d1 at hex
+    have hb1 : d1.binds = delAssoc d.binds (keyOf e i) := by rw [← hd1]
+    have hF1 : Full e st1 d1 := by
+      rw [← hst1, ← hd1]
+      exact hI.full.of_dev rfl rfl (by unfold ModeRel; rfl) rfl rfl rfl rfl rfl rfl
+    have s1 : Step e st d st1 d1 := by
+      rw [← hst1]
+      refine ⟨⟨[_], rfl, exec_single hex⟩, ?_, fun x hx => hx, ?_, fun x hx => hx, fun bN hb' => ⟨hb', rfl⟩, by rw [← hd1]⟩
+      · intro x hx _; rw [← hd1]; exact ⟨hx, rfl⟩
+      · intro X hX _; rw [← hd1]; exact ⟨hX, rfl⟩
+    have hfa : ∀ x, FrozenAcl e st x → FrozenAcl e st1 x := fun x hx => by rw [← hst1]; exact hx
+    have hkne : ∀ j ∈ pend, j ≠ i → keyOf e j ≠ keyOf e i := fun j hj hne e1 =>
+      hne (inj_of_nodup_map (keyOf e) pend hI.pendNd j hj i hip e1)
+    have hI1 : BInv e managed st1 d1 (pend.filter (· != i)) done := by
+      refine ⟨hF1, by rw [← hd1]; exact hI.intfs, ?_, ?_, nodup_map_filter _ _ hI.pendNd,
+        fun j hj => hI.pendLt j (mem_filter_ne.mp hj).1, ?_, ?_, ?_, ?_, by rw [← hd1]; exact hI.routes⟩
+      · rw [hb1]; exact List.Nodup.sublist (keys_delAssoc_sublist _ _) hI.bkeys
+      · intro j hj
+        obtain ⟨h1, h2⟩ := mem_filter_ne.mp hj
+        rw [hb1, lookup_delAssoc_ne _ _ (hkne j h1 h2)]
+        exact hI.pendOrig j h1
+      · intro p hp
+        rw [hb1] at hp
+        obtain ⟨h1, h2⟩ := mem_delAssoc hp
+        rcases hI.frozenVals p h1 with h3 | ⟨j, hj, h3⟩
+        · exact Or.inl (hfa _ h3)
+        · by_cases e1 : j = i
+          · exfalso; apply h2; rw [h3, e1]
+          · exact Or.inr ⟨j, mem_filter_ne.mpr ⟨hj, e1⟩, h3⟩
+      · intro p hp
+        rw [hb1] at hp
+        obtain ⟨h1, h2⟩ := mem_delAssoc hp
+        rcases hI.keysFrom p h1 with ⟨j, hj, h3⟩ | h3 | h3
+        · by_cases e1 : j = i
+          · exfalso; apply h2; rw [h3, e1]
+          · exact Or.inl ⟨j, mem_filter_ne.mpr ⟨hj, e1⟩, h3⟩
+        · exact Or.inr (Or.inl h3)
+        · exact Or.inr (Or.inr h3)
+      · intro b hb
+        obtain ⟨q1, q2⟩ := hI.doneOK b hb
+        refine ⟨by rw [← hst1]; exact q1, ?_⟩
+        rw [hb1, lookup_delAssoc_ne _ _ (hI.doneDisj b hb i hip)]
+        rw [← hst1]; exact q2
+      · intro b hb j hj
+        exact hI.doneDisj b hb j (mem_filter_ne.mp hj).1
+    have hnd' := List.nodup_cons.mp hnd
+    obtain ⟨d2, s2, i2, bn2⟩ := ih st1 d1 (pend.filter (· != i)) done hI1 hnd'.2 (by
+      intro j hj
+      have hji : j ≠ i := fun e1 => hnd'.1 (e1 ▸ hj)
+      obtain ⟨h1, h2⟩ := hc j (List.mem_cons_of_mem _ hj)
+      refine ⟨mem_filter_ne.mpr ⟨h1, hji⟩, ?_⟩
+      rw [← hst1]
+      show j ∉ i :: st.bNeeded
+      intro hx
+      rcases List.mem_cons.mp hx with e1 | e1
+      · exact hji e1
+      · exact h2 e1)
+    refine ⟨d2, s1.trans s2, by rw [← filter_filter_not_contains]; exact i2, ?_⟩
+    intro j
+    rw [bn2, ← hst1]
+    show j ∈ is ∨ j ∈ i :: st.bNeeded ↔ _
+    simp only [List.mem_cons]
+    constructor
+    · rintro (h | h | h)
+      · exact Or.inl (Or.inr h)
+      · exact Or.inl (Or.inl h)
+      · exact Or.inr h
+    · rintro ((h | h) | h)
+      · exact Or.inr (Or.inl h)
+      · exact Or.inl h
+      · exact Or.inr (Or.inr h)
+
+/-- `delCmds` of a slice of device access-group commands. -/
+theorem delBinds_full (e : Env) (managed : List Nat) (idx : List Nat) (st : St) (d : Dev) (pend : List Nat) (done : List Bind)
+    (hI : BInv e managed st d pend done) (hnd : idx.Nodup) (hc : ∀ i ∈ idx, i ∈ pend ∧ i ∉ st.bNeeded) :
+    ∃ d', Step e st d (delBinds e st idx) d' ∧
+      BInv e managed (delBinds e st idx) d' (pend.filter fun j => !idx.contains j) done ∧
+      (∀ j, j ∈ (delBinds e st idx).bNeeded ↔ j ∈ idx ∨ j ∈ st.bNeeded) := by
+  obtain ⟨d1, s1, i1, bn1⟩ := delFold_full e managed idx st d pend done hI hnd hc
+  unfold delBinds
+  simp only []
+  generalize (idx.foldl (fun st i =>
+        if st.bNeeded.contains i then st else
+        { (st.emit (.noBind (e.a.binds.getD i default))) with mode := "", bNeeded := i :: st.bNeeded }.hit "bind:del") st) = st1 at s1 i1 bn1
+  split
+  · exact ⟨d1, s1, i1, bn1⟩
+  · have c := markDeletedBinds_core e st1 idx
+    refine ⟨d1, s1.trans (Step.of_marks c.out c.gNeeded c.aNeeded c.aReady c.aName), i1.of_core c, ?_⟩
+    intro j; rw [c.bNeeded]; exact bn1 j
+
+theorem keys_setAssoc_new' {κ β : Type} [BEq κ] [LawfulBEq κ] (m : List (κ × β)) (k : κ) (v : β) (h : m.any (·.1 == k) = false) :
+    (setAssoc m k v).map (·.1) = m.map (·.1) ++ [k] := by
+  rw [setAssoc_eq]
+  simp [h]
+
+/-- `addCmds` of one target access-group command at a new place. -/
+theorem addOne_full (e : Env) (managed : List Nat) (hw : WF e) (hB : RefsClosedB e) (st : St) (d : Dev)
+    (pend : List Nat) (done : List Bind) (b : Bind) (hI : BInv e managed st d pend done)
+    (hc : opCheck e st pend done (.add b) = true) :
+    ∃ d', Step e st d (addOne e st b) d' ∧ BInv e managed (addOne e st b) d' pend (done ++ [b]) ∧
+      (addOne e st b).bNeeded = st.bNeeded := by
+  unfold opCheck at hc
+  simp only [Bool.and_eq_true, Bool.not_eq_true', List.contains_eq_mem, decide_eq_true_eq, decide_eq_false_iff_not] at hc
+  obtain ⟨⟨⟨⟨c1, c2⟩, c3⟩, c4⟩, c5⟩ := hc
+  obtain ⟨d1, s1, f1, r1, b1, ro1, _, bn1, _, _⟩ := transferAcl_full e hw hB st d hI.full b.acl c1 c5
+  unfold addOne
+  simp only []
+  generalize transferAcl e st b.acl = st1 at s1 f1 r1 bn1 ⊢
+  obtain ⟨hx1, _, hx3⟩ := f1.ready b.acl r1
+  have hintf : b.intf ∈ d1.intfs := by rw [s1.intfs, hI.intfs]; exact c2
+  have hex : exec1 d1 (.bind (printBind st1 b)) =
+      .ok { d1 with binds := setAssoc d1.binds (b.dir, b.intf) (st1.aNameOf b.acl), mode := none } := by
+    simp [exec1, printBind, hx1, hintf]
+  generalize hd2 : ({ d1 with binds := setAssoc d1.binds (b.dir, b.intf) (st1.aNameOf b.acl), mode := none } : Dev) = d2 at hex
+  generalize hst2 : ({ (st1.emit (.bind (printBind st1 b))) with mode := "" }.hit "bind:add" : St) = st2
+  have hF2 : Full e st2 d2 := by
+    rw [← hst2, ← hd2]
+    exact f1.of_dev rfl rfl (by unfold ModeRel; rfl) rfl rfl rfl rfl rfl rfl
+  have s2 : Step e st1 d1 st2 d2 := by
+    rw [← hst2]
+    refine ⟨⟨[_], rfl, exec_single hex⟩, ?_, fun x hx => hx, ?_, fun x hx => hx, fun bN hb' => ⟨hb', rfl⟩, by rw [← hd2]⟩
+    · intro x hx _; rw [← hd2]; exact ⟨hx, rfl⟩
+    · intro X hX _; rw [← hd2]; exact ⟨hX, rfl⟩
+  have hb2 : d2.binds = setAssoc d.binds (b.dir, b.intf) (st1.aNameOf b.acl) := by rw [← hd2, b1]
+  -- the place is new
+  have hfresh : ∀ p ∈ d.binds, p.1 ≠ (b.dir, b.intf) := by
+    intro p hp e1
+    rcases hI.keysFrom p hp with ⟨j, hj, h3⟩ | ⟨x, hx, h3⟩ | ⟨j, hj, _, h3⟩
+    · exact c3 (by rw [← e1, h3]; exact keyOf_mem_keys e j (hI.pendLt j hj))
+    · exact c4 (List.mem_map.mpr ⟨x, hx, by rw [← h3, e1]⟩)
+    · exact c3 (by rw [← e1, h3]; exact keyOf_mem_keys e j hj)
+  have hany : d.binds.any (·.1 == (b.dir, b.intf)) = false := by
+    cases hh : d.binds.any (·.1 == (b.dir, b.intf))
+    · rfl
+    · obtain ⟨p, hp, hpk⟩ := List.any_eq_true.mp hh
+      exact absurd (by simpa using hpk) (hfresh p hp)
+  have hname2 : ∀ x, st2.aNameOf x = st1.aNameOf x := fun x => by rw [← hst2]; rfl
+  have hpend : ∀ j ∈ pend, keyOf e j ≠ (b.dir, b.intf) := fun j hj e1 =>
+    c3 (e1 ▸ keyOf_mem_keys e j (hI.pendLt j hj))
+  refine ⟨d2, s1.trans s2, ⟨hF2, ?_, ?_, ?_, hI.pendNd, hI.pendLt, ?_, ?_, ?_, ?_, ?_⟩, by rw [← hst2]; exact bn1⟩
+  · rw [← hd2, s1.intfs]; exact hI.intfs
+  · rw [hb2, keys_setAssoc_new' _ _ _ hany]
+    apply List.nodup_append.mpr
+    refine ⟨hI.bkeys, by simp, ?_⟩
+    intro x hx y hy e1
+    have : y = (b.dir, b.intf) := by simpa using hy
+    obtain ⟨p, hp, hpx⟩ := List.mem_map.mp hx
+    exact hfresh p hp (by rw [hpx, e1, this])
+  · intro j hj
+    rw [hb2, lookup_setAssoc_ne _ _ _ _ (hpend j hj)]
+    exact hI.pendOrig j hj
+  · intro p hp
+    rw [hb2] at hp
+    rcases mem_setAssoc hp with h1 | ⟨h1, _⟩
+    · left; rw [h1]
+      show FrozenAcl e st2 (st1.aNameOf b.acl)
+      rw [← hst2]; exact hx3
+    · rcases hI.frozenVals p h1 with h3 | h3
+      · exact Or.inl ((h3.mono s1.aGrow).mono s2.aGrow)
+      · exact Or.inr h3
+  · intro p hp
+    rw [hb2] at hp
+    rcases mem_setAssoc hp with h1 | ⟨h1, _⟩
+    · right; left; exact ⟨b, by simp, by rw [h1]⟩
+    · rcases hI.keysFrom p h1 with h3 | ⟨x, hx, h3⟩ | h3
+      · exact Or.inl h3
+      · exact Or.inr (Or.inl ⟨x, List.mem_append_left _ hx, h3⟩)
+      · exact Or.inr (Or.inr h3)
+  · intro b' hb'
+    rcases List.mem_append.mp hb' with h1 | h1
+    · obtain ⟨q1, q2⟩ := hI.doneOK b' h1
+      obtain ⟨t1, t2⟩ := (s1.trans s2).aReadyMono b'.acl q1
+      refine ⟨t1, ?_⟩
+      have hne : (b'.dir, b'.intf) ≠ (b.dir, b.intf) := fun e1 => c4 (List.mem_map.mpr ⟨b', h1, e1⟩)
+      rw [hb2, lookup_setAssoc_ne _ _ _ _ hne, t2]; exact q2
+    · have hbb : b' = b := by simpa using h1
+      rw [hbb]
+      refine ⟨by rw [← hst2]; exact r1, ?_⟩
+      rw [hb2, lookup_setAssoc_self, hname2]
+  · intro b' hb' j hj
+    rcases List.mem_append.mp hb' with h1 | h1
+    · exact hI.doneDisj b' h1 j hj
+    · have hbb : b' = b := by simpa using h1
+      rw [hbb]; exact fun h => hpend j hj h.symm
+  · rw [← hd2, ro1]; exact hI.routes
+
+/-- All operations of `diffBinds`, each checked in the engine's own state. -/
+theorem opsFold_full (e : Env) (managed : List Nat) (hw : WF e) (hA : RefsClosedA e) (hB : RefsClosedB e) :
+    ∀ (ops : List BOp) (st : St) (d : Dev) (pend : List Nat) (done : List Bind),
+    BInv e managed st d pend done → opsCheck e st pend done ops = true →
+    ∃ d', Step e st d (ops.foldl (applyOp e) st) d' ∧
+      BInv e managed (ops.foldl (applyOp e) st) d' (opsEnd pend done ops).1 (opsEnd pend done ops).2 ∧
+      (∀ j, j ∈ pend → j ∈ (opsEnd pend done ops).1 ∨ j ∈ (ops.foldl (applyOp e) st).bNeeded) ∧
+      (∀ j ∈ st.bNeeded, j ∈ (ops.foldl (applyOp e) st).bNeeded) := by
+  intro ops
+  induction ops with
+  | nil =>
+    intro st d pend done hI _
+    exact ⟨d, Step.refl e st d, hI, fun j hj => Or.inl hj, fun j hj => hj⟩
+  | cons op ops ih =>
+    intro st d pend done hI hc
+    unfold opsCheck at hc
+    simp only [Bool.and_eq_true] at hc
+    obtain ⟨c1, c2⟩ := hc
+    rw [List.foldl_cons]
+    cases op with
+    | delGroup idx =>
+      have c1' := c1
+      unfold opCheck at c1'
+      simp only [Bool.and_eq_true, decide_eq_true_eq, List.all_eq_true, Bool.not_eq_true', List.contains_eq_mem,
+        decide_eq_false_iff_not] at c1'
+      obtain ⟨d1, s1, i1, bn1⟩ := delBinds_full e managed idx st d pend done hI c1'.1 c1'.2
+      obtain ⟨d2, s2, i2, k2, m2⟩ := ih (delBinds e st idx) d1 _ done i1 c2
+      refine ⟨d2, s1.trans s2, i2, ?_, fun j hj => m2 j ((bn1 j).mpr (Or.inr hj))⟩
+      intro j hj
+      by_cases hji : j ∈ idx
+      · exact Or.inr (m2 j ((bn1 j).mpr (Or.inl hji)))
+      · exact k2 j (List.mem_filter.mpr ⟨hj, by simpa using hji⟩)
+    | add b =>
+      obtain ⟨d1, s1, i1, bn1⟩ := addOne_full e managed hw hB st d pend done b hI c1
+      obtain ⟨d2, s2, i2, k2, m2⟩ := ih (addOne e st b) d1 pend (done ++ [b]) i1 c2
+      exact ⟨d2, s1.trans s2, i2, k2, fun j hj => m2 j (by rw [bn1]; exact hj)⟩
+    | eq i b =>
+      have c1' := c1
+      unfold opCheck at c1'
+      simp only [Bool.and_eq_true, List.contains_eq_mem, decide_eq_true_eq] at c1'
+      obtain ⟨d1, s1, i1, _, bn1⟩ := makeEqualBind_full e managed hw hA hB st d i pend done b hI c1'.1 c1'.2
+      obtain ⟨d2, s2, i2, k2, m2⟩ := ih (makeEqualBind e st i b) d1 _ (done ++ [b]) i1 c2
+      refine ⟨d2, s1.trans s2, i2, ?_, fun j hj => m2 j ((bn1 j).mpr (Or.inr hj))⟩
+      intro j hj
+      by_cases hji : j = i
+      · exact Or.inr (m2 j ((bn1 j).mpr (Or.inl hji)))
+      · exact k2 j (mem_filter_ne.mpr ⟨hj, hji⟩)
 
 theorem foldl_id_of_all {α σ : Type} (f : σ → α → σ) (l : List α) (s : σ) (h : ∀ x ∈ l, ∀ t, f t x = t) : l.foldl f s = s := by
   induction l generalizing s with
@@ -326,5 +684,89 @@ theorem diffBinds_eq_pairs (e : Env) (st : St) (al : List Nat) (bl : List Bind) 
   apply foldl_congr_mem
   intro t r hr
   simp [(hk r hr).2.1, (hk r hr).2.2]
+
+theorem markDeletedBinds_toDel (e : Env) : ∀ (idx : List Nat) (st : St),
+    (∀ i ∈ idx, i ∈ (markDeletedBinds e st idx).bToDel) ∧ (∀ i ∈ st.bToDel, i ∈ (markDeletedBinds e st idx).bToDel) := by
+  intro idx
+  induction idx with
+  | nil => intro st; exact ⟨fun i hi => by simp at hi, fun i hi => hi⟩
+  | cons j js ih =>
+    intro st
+    unfold markDeletedBinds
+    rw [List.foldl_cons]
+    have hstep : ∀ i, (i = j ∨ i ∈ st.bToDel) → i ∈ (if st.bToDel.contains j then st else
+        markDeletedAcl e { st with bToDel := j :: st.bToDel } (e.a.binds.getD j default).acl).bToDel := by
+      intro i hi
+      split
+      · rename_i hc
+        rcases hi with rfl | hi
+        · simpa using hc
+        · exact hi
+      · have hb : (markDeletedAcl e { st with bToDel := j :: st.bToDel } (e.a.binds.getD j default).acl).bToDel = j :: st.bToDel := by
+          unfold markDeletedAcl; split <;> rfl
+        rw [hb]
+        rcases hi with rfl | hi
+        · exact List.mem_cons_self
+        · exact List.mem_cons_of_mem _ hi
+    obtain ⟨i1, i2⟩ := ih (if st.bToDel.contains j then st else
+        markDeletedAcl e { st with bToDel := j :: st.bToDel } (e.a.binds.getD j default).acl)
+    unfold markDeletedBinds at i1 i2
+    refine ⟨?_, fun i hi => i2 i (hstep i (Or.inr hi))⟩
+    intro i hi
+    rcases List.mem_cons.mp hi with e1 | e1
+    · exact i2 i (hstep i (Or.inl e1))
+    · exact i1 i e1
+
+/-- `diffBinds` in the branch "no parts equal". -/
+theorem diffBinds_noparts (e : Env) (st : St) (al : List Nat) (bl : List Bind)
+    (h1 : (!al.isEmpty && st.bNeeded.contains (al.headD 0)) = false)
+    (h2 : (diffUnordered (al.map fun i => (e.a.binds.getD i default).key) (bl.map (·.key))).any (·.isEqual) = false) :
+    diffBinds e st al bl = (bl.map BOp.add).foldl (applyOp e) (nopartsSt e st al) := by
+  unfold diffBinds
+  simp only []
+  rw [if_neg (by rw [h1]; simp), if_pos (by rw [h2]; rfl)]
+  unfold nopartsSt
+  rw [List.foldl_map]
+  split
+  · rename_i hb
+    have : bl = [] := by simpa using hb
+    subst this
+    rfl
+  · rfl
+
+theorem opsEnd_adds (pend : List Nat) : ∀ (bs : List Bind) (done : List Bind),
+    opsEnd pend done (bs.map BOp.add) = (pend, done ++ bs) := by
+  intro bs
+  induction bs with
+  | nil => intro done; simp [opsEnd]
+  | cons b bs ih => intro done; simp [opsEnd, ih, List.append_assoc]
+
+/-- `diffBinds` in the branch "some parts equal" is the fold of its operations. -/
+theorem diffBinds_eq_ops (e : Env) (st : St) (al : List Nat) (bl : List Bind)
+    (h1 : (!al.isEmpty && st.bNeeded.contains (al.headD 0)) = false)
+    (h2 : (diffUnordered (al.map fun i => (e.a.binds.getD i default).key) (bl.map (·.key))).any (·.isEqual) = true) :
+    diffBinds e st al bl =
+      (bindOps al bl (diffUnordered (al.map fun i => (e.a.binds.getD i default).key) (bl.map (·.key)))).foldl (applyOp e) st := by
+  unfold diffBinds
+  simp only []
+  rw [if_neg (by rw [h1]; simp), if_neg (by rw [h2]; simp)]
+  generalize diffUnordered (al.map fun i => (e.a.binds.getD i default).key) (bl.map (·.key)) = diff
+  unfold bindOps
+  rw [List.foldl_append, foldl_flatMap', foldl_flatMap']
+  have e1 : diff.foldl (fun st r => if r.isDelete then delBinds e st (slice al r.lowA r.highA) else st) st =
+      diff.foldl (fun t r => (if r.isDelete then [BOp.delGroup (slice al r.lowA r.highA)] else []).foldl (applyOp e) t) st := by
+    apply foldl_congr_mem
+    intro t r _
+    split <;> simp [applyOp]
+  rw [← e1]
+  apply foldl_congr_mem
+  intro t r _
+  split
+  · split
+    · rfl
+    · rw [List.foldl_map]; rfl
+  · split
+    · rw [List.foldl_map]; rfl
+    · rfl
 
 end NA.F1
